@@ -151,6 +151,8 @@ type c17Env struct {
 
 	smu  sync.Mutex
 	slow map[string]*c17Client
+
+	probed bool
 }
 
 // mapper routes /slow/<p> to the blocking handler.
@@ -475,6 +477,21 @@ func (e *c17Env) finish() {
 			break
 		}
 		time.Sleep(time.Millisecond)
+	}
+	// final probe: everybody has hung up, every cap change had the time to complete: exactly the last
+	// configured cap is usable - that many new clients are served (stuck otherwise), one more is not
+	// (its answer would be in the log)
+	if !e.probed {
+		e.probed = true
+		e.trySettle()
+		var ps []*c17Client
+		for i := 0; i < e.lastCap+1; i++ {
+			ps = append(ps, e.dial())
+		}
+		e.expectServed(ps, e.lastCap)
+		time.Sleep(80 * time.Millisecond)
+		e.finish()
+		return
 	}
 	e.hs.Close()
 	for _, c := range e.all {
